@@ -196,11 +196,44 @@ def meanAveragePrecisionML (C : Nat) (rows : List MLItem) : Rat :=
     problem whose examples are the classes of that row) -/
 def exampleAP (it : MLItem) : Rat := averagePrecision (it.truth.zip it.row)
 
+/-- the default `threshold` argument of `metrics.jaccard` (tied to the signature on every run) -/
+def jaccardThreshold : Rat := 1 / 2
+
 /-- `jaccard` of one example at threshold 1/2 -/
 def jaccard (it : MLItem) : Rat :=
-  let pairs := it.truth.zip (it.row.map (fun s => decide ((1 : Rat) / 2 < s)))
+  let pairs := it.truth.zip (it.row.map (fun s => decide (jaccardThreshold < s)))
   let union := pairs.countP (fun p => p.1 || p.2)
   if union = 0 then 0 else ratio (pairs.countP (fun p => p.1 && p.2)) union
+
+/-- `jaccard` with a two-dimensional input: scikit-learn's `average="samples"` = mean over the rows -/
+def jaccardSamples (rows : List MLItem) : Rat := mean (rows.map jaccard)
+
+/-- `average_precision` with a two-dimensional input: `average="micro"` = the binary problem whose
+    examples are all (row, class) cells -/
+def microAP (rows : List MLItem) : Rat := averagePrecision (rows.flatMap (fun r => r.truth.zip r.row))
+
+/-! ### the clip score of the multilabel task
+
+`multilabel_example_score` is `exp(-log_loss(y_true, y_score))` of one example with an indicator
+truth.  scikit-learn's `log_loss` clips every probability to `[eps, 1 - eps]` (`eps` = the machine
+epsilon of the score array's dtype, float32: 2⁻²³) and sums `-log p` over the true classes, so the
+score is the *product of the clipped probabilities of the true classes* (1 when no class is true).
+`exp`/`log` have no rational value: the harness compares this closed form with the float the
+library returned within 2⁻¹⁸ (float32 logarithms). -/
+
+/-- machine epsilon of float32 -/
+def f32eps : Rat := 1 / 8388608
+
+/-- `np.clip(p, eps, 1 - eps)` -/
+def clipEps (p : Rat) : Rat := if p < f32eps then f32eps else if 1 - f32eps < p then 1 - f32eps else p
+
+def prod : List Rat → Rat
+  | [] => 1
+  | x :: xs => x * prod xs
+
+/-- `multilabel_example_score` of one example -/
+def mlScore (it : MLItem) : Rat :=
+  prod ((it.truth.zip it.row).map (fun p => if p.1 then clipEps p.2 else 1))
 
 /-! ### metric kinds, their terms, and the tables of the four task modules -/
 
@@ -289,6 +322,11 @@ def taskMetrics : Task → Level → List Metric
 /-- the table of the code agrees with the model's driver: same functions in the same order -/
 def TableAgrees (task : Task) (lvl : Level) (t : List Row) : Bool :=
   t.map (·.fn) == (taskMetrics task lvl).map (·.fn)
+
+/-- the table of the code lists the same functions as the model's driver, in any order (the order
+    of the metrics within a list is not part of the property) -/
+def TableAgreesPerm (task : Task) (lvl : Level) (t : List Row) : Bool :=
+  (t.map (·.fn)).isPerm ((taskMetrics task lvl).map (·.fn))
 
 /-! ### what a task returns -/
 
@@ -435,10 +473,19 @@ def secMatchOut (m : Nat × Nat × Item) : Except Err MatchOut := do
   let fs ← features (taskMetrics .soundEventClassification .soundEvent) (itemMetricSL m.2.2)
   return { src := some m.1, tgt := some m.2.1, affinity := 1, score := some (tcp m.2.2), metrics := fs }
 
+/-- `ClipEvaluation`'s validator accepts the matches of a clip only when every predicted and every
+    annotated sound event of the clip is in exactly one of them: every prediction found its
+    annotation (`nP` matches) and every annotation position is the target of exactly one match -/
+def secCovered (nP nA : Nat) (ms : List (Nat × Nat × Item)) : Bool :=
+  ms.length == nP && (List.range nA).all (fun j => (ms.map (·.2.1)).count j == 1)
+
 /-- one clip of `sound_event_classification`: a clip without evaluated sound event has no
-    score (`None`), it is then left out of the overall mean -/
+    score (`None`), it is then left out of the overall mean.  When the predictions and the
+    annotations of the clip do not refer to the same sound events one-to-one the construction of
+    the `ClipEvaluation` fails (`ValueError` of its validator). -/
 def secClip (C : Nat) (x : Nat × List SEAnn × List SEPred) : Except Err (ClipOut × List Item) := do
   let ms := secMatches C x.2.1 x.2.2
+  if !(secCovered x.2.2.length x.2.1.length ms) then throw .invalid
   let outs ← ms.mapM secMatchOut
   let scores := ms.map (fun m => tcp m.2.2)
   let score := if scores.isEmpty then none else some (mean scores)
